@@ -79,10 +79,7 @@ for pm in (1, 2):
       mode='wrap', unwind=130, timeout=1500, defs=['-DKV_PREMISE=%d' % pm, '-DKV_MAXCOUNT=4095', '-DKV_C13_REPS6'], funcs=['detect_alphabet'],
       solver=SOLVER_C13,
       trusted=[TRUST_MSG], assumptions=[A_LOG, A_REPS6, A_FLOAT, A_WRAP], native_srcs=['lib/src/tldevel.c', 'lib/src/msa_alloc.c', 'lib/src/alphabet.c'])
-    Q(id='C13.detect_alphabet.premise%d.reps13' % pm, props=['C13', 'C04'], cls='B', harness='c13_detect_alphabet.c', entry='h_c13_detect', tier='thorough',
-      mode='wrap', unwind=130, timeout=7200, defs=['-DKV_PREMISE=%d' % pm, '-DKV_MAXCOUNT=4095'], funcs=['detect_alphabet'],
-      solver=SOLVER_C13,
-      trusted=[TRUST_MSG], assumptions=[A_LOG, A_REPS, A_FLOAT, A_WRAP], native_srcs=['lib/src/tldevel.c', 'lib/src/msa_alloc.c', 'lib/src/alphabet.c'])
+    # (a 13-representative variant of this query did not finish in 40 min and is not registered)
 
 # =========================================================================== C17
 Q(id='C17.compare_pair', props=['C17'], cls='P', harness='c17_compare_pair.c', entry='h_c17_compare_pair',
@@ -362,7 +359,7 @@ PROPS['C03'] = dict(
                 'sort_by_rank restores the caller order (proved); static facts: rank is read only by sort_by_rank, no random numbers are drawn by library code reachable from kalign_run; '
                 'kalign_run protocol (B) shows rows come back in input order'),
     level_note=('relational two-run statement (permuted input => permuted output) is a meta-argument: a deterministic function of the canonical order composed with sort-by-rank; qsort trusted; '
-                'names longer than 256 bytes are compared on their first 256 bytes only (see known findings)'),
+                'names longer than 256 bytes: covered by the thorough-tier query C03.sort_by_len_name.longnames (finding C03-1, fixed)'),
     technique=T_CB + ' (harness-enforced, loop-free / bounded names), static facts',
     explanation=EXPL_COMMON,
     assumptions=['permutation-equivariance by composition is not machine-checked'])
@@ -528,7 +525,7 @@ PROPS['C06'] = dict(
     level='other',
     level_text=('bounded contract checks that compose to the round trip: C15.writers shows each writer emits, byte for byte, the text the format rules prescribe for a symbolic alignment; '
                 'C05.read_fasta and C06.readers (Clustal) show the reader returns, for block-structured text of that shape, one record per row with the same name, residues and every gap count'),
-    level_note=('bounded and partial: the MSF reader query exhausts memory and is NOT decided (thorough tier, reported undecided); reader texts use shortened header lines and small blocks (the readers do not depend on the block constant); '
+    level_note=('bounded and partial: the MSF reader query exhausts memory, is not registered, and read_msf is NOT decided; reader texts use shortened header lines and small blocks (the readers do not depend on the block constant); '
                 'the composition writer -> text -> reader and the cross-format pairs are meta-arguments over the common abstract rows'),
     technique=T_CB + ' (harness-enforced), bounded unwinding, capacity-shrunk copies; native replay',
     explanation=EXPL_COMMON)
@@ -536,11 +533,11 @@ PROPS['C06'] = dict(
 def _reader_shapes(tier):
     out = []
     # measured: Clustal shapes up to 3 columns finish in ~90 s; 4 columns and every MSF shape (longer header -> larger unwinding
-    # bound -> phantom iterations) exhaust 12 GB.  They stay in the thorough tier and are reported undecided when they do not finish.
+    # bound -> phantom iterations) exhaust 12 GB and are not registered: the MSF reader is NOT decided.
     if tier == 'quick':
         shapes = [(2, 2, 2, 1), (2, 3, 2, 1), (2, 3, 3, 1)]
     else:
-        shapes = [(2, 2, 2, 1), (2, 3, 2, 1), (2, 3, 3, 1), (2, 4, 2, 1), (2, 2, 2, 2), (2, 3, 2, 2)]
+        shapes = [(2, 2, 2, 1), (2, 3, 2, 1), (2, 3, 3, 1), (3, 2, 2, 1)]
     for n, w, blk, fmt in shapes:
         out.append(dict(name='n%d_w%d_block%d_fmt%d' % (n, w, blk, fmt), defs=dict(KV_N=n, KV_W=w, KV_BLOCK=blk, KV_FMT=fmt),
                         unwind=(18 if fmt == 1 else 12 + n + ((w + blk - 1) // blk) * (n + 2))))
